@@ -16,7 +16,7 @@ func genSpec(t *rapid.T) FileSpec {
 	f := FileSpec{
 		Package:  rapid.SampledFrom([]string{"p", "a.b_c.d", "pkg_x", "x.Y"}).Draw(t, "package"),
 		Alias:    rapid.Bool().Draw(t, "alias"),
-		Protolib: rapid.SampledFrom([]string{"", "", "custom", "gogo"}).Draw(t, "protolib"),
+		Protolib: rapid.SampledFrom([]string{"", "", "custom", "gogo", "custom_proto"}).Draw(t, "protolib"),
 		JSON:     rapid.Bool().Draw(t, "json"),
 		OtherPkg: rapid.SampledFrom([]string{"", "", "context", "drpc", "in", "x", "ctx", "srv"}).Draw(t, "otherpkg"),
 		TwoFiles: rapid.IntRange(0, 2).Draw(t, "twofiles") == 0,
